@@ -271,8 +271,9 @@ def strip_last_label(
     returned_routine_ops = []
     for routine in routine_ops:
         if len(routine) > 0:
+            # (labels can be jumped to from other routines)
             jump_counts: dict[int, int] = {}
-            for op in routine:
+            for op in (op for r in routine_ops for op in r):
                 if isinstance(op, SsbLabelJump) and op.label is not None:
                     jump_counts[op.label.id] = jump_counts.get(op.label.id, 0) + 1
 
